@@ -19,7 +19,7 @@ from ..runner import Skip
 RULE = ("cases from rng(seed, 13, 0, i): graphs of SE(2)/SE(3) poses and R^2/R^3 landmarks (2-D, 3-D or both in one file) with odometry edges, SE(2)->R^2 landmark edges "
         "(identity offset), SE(3)->R^3 landmark edges referencing registered PARAMS_SE3OFFSET (rotated offsets, w<0), PARAMS_SE2OFFSET entries; values from hostile classes "
         "incl. 1e-300..1e300, subnormals, negative / 2^62 / 2^64 ids, w<0 quaternions, dense information; 1..5 export/import cycles (sometimes with in-place edits of the loaded graph between cycles; sometimes an edge listed twice). every 6th case checks that inexpressible "
-        "content (R^n odometry, R^n->R^n landmark edges, SE(2) landmark edge with non-identity offset) is refused. distinct = spec fingerprint; non-trivial = >= 2 edges and "
+        "content (R^n odometry, R^n->R^n landmark edges, SE(2) landmark edge with a non-identity - also tiny - offset, SE(3) landmark edge whose offset id is None / unregistered) is refused with an error at export or import instead of silently becoming a different graph. distinct = spec fingerprint; non-trivial = >= 2 edges and "
         ">= 1 non-integer value.")
 REQ = ["eval:roundtrip-structure", "eval:roundtrip-vertex-poses", "eval:roundtrip-edge-measurements", "eval:roundtrip-information", "eval:roundtrip-offsets", "eval:roundtrip-chi2",
        "eval:file-tokens-exact", "eval:element-level-roundtrip", "eval:inexpressible-content-refused", "class:family:2d", "class:family:3d", "class:family:both", "class:extreme_values", "class:meas_quat_wneg",
@@ -382,9 +382,29 @@ def roundtrip_case(ctx, i, rng):
                 "params": spec["params"][:1]}, cap=2)
 
 
+def graphs_same_physical(g0, g1):
+    """Silent element-wise comparison (the same criteria as compare_graphs, for one cycle)."""
+    class _Null:
+        def check(self, *a, **k):
+            return a[1]
+
+        def count(self, *a, **k):
+            pass
+    rec = []
+
+    class _Rec(_Null):
+        def check(self, name, ok, *a, **k):
+            rec.append(bool(ok))
+            return ok
+    compare_graphs(_Rec(), g0, g1, 1, {}, None)
+    return bool(rec) and all(rec)
+
+
 def refusal_case(ctx, i, rng, variant=None):
-    """Content the format cannot express must raise at export instead of being written differently."""
-    variant = variant or str(rng.choice(["odo_r2", "odo_r3", "lm_r2", "lm_r3", "lm_se2_offset"]))
+    """Content the format cannot express must be refused with an error (at export, or at the latest when the written file is read back) instead
+    of silently becoming a different graph."""
+    variant = variant or str(rng.choice(["odo_r2", "odo_r3", "lm_r2", "lm_r3", "lm_se2_offset", "lm_se2_tiny_offset", "lm_se3_offset_id_none", "lm_se3_offset_unregistered"]))
+    params = None
     if variant.startswith("odo_r"):
         k = variant[-2:]
         spec = {"vertices": [{"id": 1, "kind": k, "pose": gen.mild_pose(rng, k)}, {"id": 2, "kind": k, "pose": gen.mild_pose(rng, k)}],
@@ -393,12 +413,25 @@ def refusal_case(ctx, i, rng, variant=None):
         k = variant[-2:]
         spec = {"vertices": [{"id": 1, "kind": k, "pose": gen.mild_pose(rng, k)}, {"id": 2, "kind": k, "pose": gen.mild_pose(rng, k)}],
                 "edges": [{"type": "lm", "ids": [1, 2], "info": np.eye(R.CD[k]).tolist(), "est": gen.mild_pose(rng, k), "est_kind": k, "off": gen.mild_pose(rng, k), "off_kind": k, "off_id": 0}]}
+    elif variant.startswith("lm_se3"):
+        # an SE(3) landmark edge whose offset has no id / an id that is not in the parameter table: the EDGE_SE3_TRACKXYZ line cannot name its offset
+        off = gen.normalize_pose("se3", gen.mild_pose(rng, "se3", 0.5))
+        spec = {"vertices": [{"id": 1, "kind": "se3", "pose": gen.normalize_pose("se3", gen.mild_pose(rng, "se3"))}, {"id": 2, "kind": "r3", "pose": gen.mild_pose(rng, "r3")},
+                             {"id": 3, "kind": "se3", "pose": gen.normalize_pose("se3", gen.mild_pose(rng, "se3"))}],
+                "edges": [{"type": "odo", "ids": [1, 3], "info": np.eye(6).tolist(), "est": gen.normalize_pose("se3", gen.mild_pose(rng, "se3")), "est_kind": "se3"},
+                          {"type": "lm", "ids": [1, 2], "info": np.eye(3).tolist(), "est": gen.mild_pose(rng, "r3"), "est_kind": "r3", "off": off, "off_kind": "se3",
+                           "off_id": None if variant.endswith("none") else 7}]}
+        if not variant.endswith("none"):
+            spec["params"] = [{"tag": "PARAMS_SE3OFFSET", "id": 3, "value": gen.normalize_pose("se3", gen.mild_pose(rng, "se3", 0.5))}]
     else:
         off = gen.mild_pose(rng, "se2", 0.5)
         if rng.random() < 0.3:
             off = [0.0, 0.0, float(rng.uniform(0.1, 3))]
         elif rng.random() < 0.3:
             off = [float(rng.normal()), 0.0, 0.0]
+        if variant == "lm_se2_tiny_offset":
+            # non-zero but tiny (calibration residue): still not the identity, still not expressible
+            off = [float(10 ** rng.uniform(-15, -7)) * float(rng.choice([-1, 1])), 0.0 if rng.random() < 0.5 else float(10 ** rng.uniform(-15, -7)), float(rng.choice([0.0, 10 ** rng.uniform(-15, -7)]))]
         spec = {"vertices": [{"id": 1, "kind": "se2", "pose": gen.mild_pose(rng, "se2")}, {"id": 2, "kind": "r2", "pose": gen.mild_pose(rng, "r2")}],
                 "edges": [{"type": "lm", "ids": [1, 2], "info": np.eye(2).tolist(), "est": gen.mild_pose(rng, "r2"), "est_kind": "r2", "off": off, "off_kind": "se2", "off_id": 0}]}
     g = M.build(spec)
@@ -407,26 +440,26 @@ def refusal_case(ctx, i, rng, variant=None):
     case = {"graph": spec}
     try:
         path = os.path.join(d, "x.g2o")
+        stage = None
         raised = None
+        g1 = None
         try:
             g.to_g2o(path)
+            stage = "import"
+            g1 = M.Graph.from_g2o(path)
+            stage = None
         except Exception as ex:
             raised = type(ex).__name__
+            stage = stage or "export"
         if raised is None:
-            # written without error: acceptable only if reading it back reproduces the same physical graph
-            lossless = False
-            try:
-                g1 = M.Graph.from_g2o(path)
-                c0, c1 = float(g.calc_chi2()), float(g1.calc_chi2())
-                lossless = len(g1._edges) == len(g._edges) and abs(c0 - c1) <= 1e-9 * max(1.0, abs(c0))
-            except Exception:
-                lossless = False
-            ctx.check("inexpressible-content-refused", lossless, feats, {"raised": None, "note": "exported silently and the reloaded graph differs"}, case)
+            # no error anywhere: acceptable only if what came back is the same physical graph, element by element
+            ctx.check("inexpressible-content-refused", graphs_same_physical(g, g1), feats, {"raised": None, "note": "exported and re-imported without error, but the reloaded graph differs"}, case)
         else:
             ctx.check("inexpressible-content-refused", True)
-            ctx.count("refused_with:" + raised)
+            ctx.count("refused_at_%s_with:%s" % (stage, raised))
     finally:
         shutil.rmtree(d, ignore_errors=True)
+    ctx.count("refusal_variant:" + variant)
     ctx.nontrivial(gen.fingerprint(spec))
 
 
